@@ -303,7 +303,15 @@ const P61: u128 = (1u128 << 61) - 1;
 /// probability 1 - 2^-122
 struct SumKey {
     seed: u64,
+    gen: u64,
+    integ: u64,
 }
+impl s2n_quic_core::crypto::OneRttKey for SumKey {
+    fn derive_next_key(&self) -> Self {
+        SumKey { seed: splitmix(self.seed ^ 0x6b75), gen: self.gen + 1, integ: self.integ }
+    }
+}
+impl s2n_quic_core::crypto::OneRttHeaderKey for SumHeaderKey {}
 impl SumKey {
     fn ks(&self, pn: u64, i: usize) -> u8 {
         (splitmix(self.seed ^ splitmix(pn) ^ ((i / 8) as u64).wrapping_mul(0xa076_1d64_78bd_642f)) >> (8 * (i % 8))) as u8
@@ -360,7 +368,7 @@ impl Key for SumKey {
         u64::MAX
     }
     fn aead_integrity_limit(&self) -> u64 {
-        u64::MAX
+        self.integ
     }
     fn cipher_suite(&self) -> crypto::tls::CipherSuite {
         crypto::tls::CipherSuite::Unknown
@@ -399,65 +407,99 @@ impl HeaderKey for SumHeaderKey {
 }
 
 struct Receiver {
-    key: SumKey,
+    ks: s2n_quic_core::crypto::application::KeySet<SumKey>,
     hk: SumHeaderKey,
-    hlen: usize,
+    dcid_len: usize,
     window: SlidingWindow,
     largest: PacketNumber,
+    closed: bool,
 }
 
 impl Receiver {
-    /// the order of s2n-quic-transport/src/space/application.rs validate_and_decrypt_packet:
-    /// unprotect, expand, decrypt, then the duplicate check; on success the frames would be
-    /// processed and the packet number inserted (on_processed_packet)
+    /// the steps of s2n-quic-transport: ProtectedPacket::decode (endpoint), then
+    /// space/application.rs validate_and_decrypt_packet: ProtectedShort::unprotect (header protection,
+    /// packet number expansion), KeySet::decrypt_packet (key phase selection, failure counter,
+    /// AEAD_LIMIT_REACHED), then the duplicate check, and only then the decryption result; on success
+    /// the frames would be processed and the packet number inserted (on_processed_packet)
     fn rx(&mut self, dg: &[u8]) -> (V, Option<(u64, Vec<u8>)>) {
-        let sp = PacketNumberSpace::ApplicationData;
-        let mut buf = dg.to_vec();
-        if buf.len() < self.hlen {
-            return (1, None);
+        use s2n_codec::DecoderBufferMut;
+        use s2n_quic_core::{
+            connection::{id::ConnectionInfo, ProcessingError},
+            inet::SocketAddress,
+            packet::ProtectedPacket,
+            transport,
+        };
+        if self.closed {
+            return (5, None);
         }
-        let (tpn, enc) = match crypto::unprotect(&self.hk, sp, ProtectedPayload::new(self.hlen, &mut buf[..])) {
-            Ok(x) => x,
+        let mut buf = dg.to_vec();
+        let addr = SocketAddress::default();
+        let info = ConnectionInfo::new(&addr);
+        let packet = match ProtectedPacket::decode(DecoderBufferMut::new(&mut buf), &info, &self.dcid_len) {
+            Ok((p, _rest)) => p,
             Err(_) => return (1, None),
         };
-        let pn = tpn.expand(self.largest);
-        let dec = crypto::decrypt(&self.key, pn, enc).map(|(_h, p)| p.into_less_safe_slice().to_vec());
+        let short = match packet {
+            ProtectedPacket::Short(s) => s,
+            _ => return (1, None),
+        };
+        let enc = match short.unprotect(&self.hk, self.largest) {
+            Ok(e) => e,
+            Err(_) => return (1, None),
+        };
+        let pn = enc.packet_number;
+        let pto = unsafe { s2n_quic_core::time::Timestamp::from_duration(std::time::Duration::from_secs(1)) };
+        let decrypted = self.ks.decrypt_packet(enc, self.largest, pto);
         match self.window.check(pn) {
             Err(SlidingWindowError::Duplicate) => return (3, None),
             Err(SlidingWindowError::TooOld) => return (4, None),
             Ok(()) => {}
         }
-        match dec {
-            Err(_) => (2, None),
-            Ok(p) => {
+        match decrypted {
+            Ok((clear, _generation)) => {
+                let p = clear.payload.into_less_safe_slice().to_vec();
                 self.window.insert(pn).expect("packet number was already checked");
                 if pn > self.largest {
                     self.largest = pn;
                 }
                 (0, Some((pn.as_u64(), p)))
             }
+            Err(ProcessingError::DecryptError) => (2, None),
+            Err(ProcessingError::ConnectionError(s2n_quic_core::connection::Error::Transport { code, .. }))
+                if code.as_u64() == transport::Error::AEAD_LIMIT_REACHED.code.as_u64() =>
+            {
+                // the connection closes; nothing is processed afterwards
+                self.closed = true;
+                (6, None)
+            }
+            Err(_) => (7, None),
         }
     }
 }
 
-/// rxpipe: case = seed, dcid_len, ops (see coq/model/RxPipeline.v)
+/// rxpipe: case = seed, dcid_len, integrity_limit, ops (see coq/model/RxPipeline.v)
 fn rxpipe(input: &[V]) -> Vec<V> {
     let sp = PacketNumberSpace::ApplicationData;
     let seed = input.first().copied().unwrap_or(0) as u64;
     let dcid_len = (input.get(1).copied().unwrap_or(0) as usize).min(20);
     let hlen = 1 + dcid_len;
-    let mut sealer = SumKey { seed };
+    let integ = input.get(2).copied().unwrap_or(0) as u64;
+    let mut sealer = SumKey { seed, gen: 0, integ };
     let hk = SumHeaderKey { seed };
     let mut rcv = Receiver {
-        key: SumKey { seed },
+        ks: s2n_quic_core::crypto::application::KeySet::new(
+            SumKey { seed, gen: 0, integ },
+            s2n_quic_core::crypto::application::limited::Limits::default(),
+        ),
         hk: SumHeaderKey { seed },
-        hlen,
+        dcid_len,
         window: SlidingWindow::default(),
         largest: sp.new_packet_number(VarInt::from_u8(0)),
+        closed: false,
     };
     let mut sealed: Vec<Vec<u8>> = vec![];
     let mut out = vec![];
-    let mut i = 2usize;
+    let mut i = 3usize;
     let get = |i: usize| input.get(i).copied();
     let emit = |out: &mut Vec<V>, genuine: bool, r: (V, Option<(u64, Vec<u8>)>)| match r {
         (0, Some((pn, p))) => {
@@ -466,7 +508,7 @@ fn rxpipe(input: &[V]) -> Vec<V> {
             out.push(p.len() as V);
             out.extend(p.iter().map(|b| *b as V));
         }
-        (code, _) => out.push(if genuine { code } else { 1 }),
+        (code, _) => out.push(if genuine || code == 5 || code == 6 { code } else { 1 }),
     };
     while i < input.len() {
         match input[i] {
